@@ -62,7 +62,7 @@ CHECKS = {
         text="spec/Layout.tla is an independent writer and reader of every export format over byte sequences, spec/FNV1a.tla the documented hashing rule "
         "in byte limbs; spec/TraceLayout.tla re-executes histories recorded from the real structures running the library's default hash and, after every "
         "step, compares the exported bytes with the reference writer's bytes (Bloom, counting Bloom, count-min, expanding, rotating, cuckoo, counting "
-        "cuckoo; hex form) and the library's answer for every key with the reference reader's answer computed from the exported bytes alone (Bloom, "
+        "cuckoo; hex form; the C header read back as declarations + array initialiser) and the library's answer for every key with the reference reader's answer computed from the exported bytes alone (Bloom, "
         "counting Bloom, count-min min/mean/mean-min). TLC prints one verdict per trace.",
         note="TLC is used as an executable reference here (encode/decode fidelity is at the edge of the technique): structures up to ~80 cells, keys up to 8 "
         "bytes; Bloom geometry from an independent 50-digit evaluation of the documented formula; cuckoo histories with evictions are excluded; the float "
